@@ -114,8 +114,10 @@ def _assign(l, rv, line):
 
 
 class Inliner:
-    def __init__(self, fb, policy, max_depth=4, combinators=True, skip_combinators=("map_err",)):
+    def __init__(self, fb, policy, max_depth=4, combinators=True, skip_combinators=("map_err",), src=None):
         self.fb = fb
+        self.src = src if src is not None else getattr(fb, "orig_fns", None) or fb.fns
+        self.absorbed = set()
         self.policy = policy
         self.max_depth = max_depth
         self.combinators = combinators
@@ -201,6 +203,7 @@ class Inliner:
             b["stmts"].append(_assign(off + 1 + j, {"k": "use", "op": a}, line))
         b["term"] = {"k": "goto", "t": boff, "line": line, "exp": False}
         self.inlined.append(callee.key)
+        self.absorbed.add(callee.key)
 
     def _try_direct(self, i, b, t):
         c = callee_of(t)
@@ -208,7 +211,7 @@ class Inliner:
             return False
         r = resolved(c)
         key = r.get("key")
-        callee = self.fb.fns.get(key)
+        callee = self.src.get(key)
         if callee is None or callee.key in self.chain[i]:
             return False
         if callee.rec.get("dk") == "Closure":
@@ -226,7 +229,7 @@ class Inliner:
         """Closure key + the operand holding the closure value, if `op` is a crate-local closure."""
         if op["k"] == "const":
             k = op.get("closure")
-            return (k, op) if k in self.fb.fns else (None, None)
+            return (k, op) if k in self.src else (None, None)
         pl = op["pl"]
         if pl["p"]:
             return None, None
@@ -251,13 +254,13 @@ class Inliner:
                 found = rv["op"]["closure"]
                 break
             return None, None
-        if found in self.fb.fns:
+        if found in self.src:
             return found, op
         return None, None
 
     def _call_closure(self, blk, ckey, cop, vals, dest_local, target, unwind, line):
         """Terminate block `blk` with an inlined invocation of closure `ckey` (value operand `cop`) on `vals`."""
-        cl = self.fb.fns[ckey]
+        cl = self.src[ckey]
         envty = cl.locals[1]["ty"] if len(cl.locals) > 1 else ""
         b = self.blocks[blk]
         if envty.startswith("&"):
@@ -369,7 +372,7 @@ def _closure_then(inl, blk, t, cl, vals, wrap):
     """blk: r = closure(vals); then dest = wrap(r) (wrap None: dest = r)."""
     line = t.get("line", 0)
     ck, cop = cl
-    rl = inl._new_local(inl.fb.fns[ck].locals[0]["ty"])
+    rl = inl._new_local(inl.src[ck].locals[0]["ty"])
     nxt = inl._new_block(inl.depth[blk], inl.chain[blk], inl.blocks[blk]["cleanup"], line)
     inl._call_closure(blk, ck, cop, vals, rl, nxt, t.get("unwind"), line)
     _finish(inl, nxt, t, wrap(_mv(rl)) if wrap else {"k": "use", "op": _mv(rl)})
@@ -520,7 +523,7 @@ def _iter_loop(inl, i, t, cl, by_ref, on_item, on_end, self_is_ref=True):
     on_end(end)
     item = _variant_field({"l": nx, "p": []}, "Some", 1, OPT)
     ck, cop = cl
-    rl = inl._new_local(inl.fb.fns[ck].locals[0]["ty"])
+    rl = inl._new_local(inl.src[ck].locals[0]["ty"])
     after = inl._new_block(d, ch, cleanup, line)
     val = _ref_of(inl, body, copy.deepcopy(item), line) if by_ref else _mvp(copy.deepcopy(item))
     inl._call_closure(body, ck, cop, [val], rl, after, t.get("unwind"), line)
@@ -615,7 +618,7 @@ def anchor_names(fb):
 
 _BASELINE = None
 
-PROTOCOL_SIG = ("FrontendReq", "BackendReq", "GpuBackendReq", "VhostUserMsgHeader", "VhostUserGpuMsgHeader")
+REQUEST_ENUMS = ("FrontendReq", "BackendReq", "GpuBackendReq")
 
 
 def fn_ident(f):
@@ -659,8 +662,8 @@ def default_policy(fb, extra_keep=(), max_blocks=80, inline_known=()):
             return False
         if callee.trait is not None:
             return False
-        sig = " ".join(callee.rec.get("sig_in") or []) + " " + (callee.rec.get("sig_out") or "")
-        if any(p in sig for p in PROTOCOL_SIG):
+        # request senders (a request code passed by value) are role anchors of the rules even when renamed
+        if any(ty.split("::")[-1] in REQUEST_ENUMS for ty in (callee.rec.get("sig_in") or [])):
             return False
         if len(callee.blocks) > max_blocks:
             return False
@@ -671,8 +674,11 @@ def default_policy(fb, extra_keep=(), max_blocks=80, inline_known=()):
 def inlined(fb, fn, extra_keep=(), inline_known=(), max_depth=4, combinators=True, max_blocks=80):
     """Cached inlined view of fn under the default policy."""
     ck = ("inl", fn.key, tuple(sorted(extra_keep)), tuple(sorted(inline_known)), max_depth, combinators, max_blocks)
+    if not extra_keep and not inline_known and getattr(fb, "orig_fns", None) is not None and fb.fns.get(fn.key) is fn:
+        return fn  # the fact base already holds inlined views
     cache = fb.__dict__.setdefault("_inl_cache", {})
     if ck not in cache:
         pol = default_policy(fb, extra_keep, max_blocks, inline_known)
-        cache[ck] = Inliner(fb, pol, max_depth=max_depth, combinators=combinators).run(fn)
+        src = getattr(fb, "orig_fns", None) or fb.fns
+        cache[ck] = Inliner(fb, pol, max_depth=max_depth, combinators=combinators, src=src).run(src.get(fn.key, fn))
     return cache[ck]
